@@ -103,6 +103,7 @@ type hsClient struct {
 	Wrap       bool // Dial paths: the application installs its own WrapConn
 	Edited     bool // Upgrade path: the same Dialer value made an earlier handshake with another first offer in the same slice element
 	Reuse      bool // DebugDialer: the same value has already been used for an earlier Dial
+	StatusCb   bool // Dialer.OnStatusError is set (and reads the body it is given)
 	EOFData    bool // the transport hands over the last bytes it has together with io.EOF
 	LiveCtx    bool // Dial paths: the caller's context is a cancellable one that stays alive throughout
 	TLS        bool // wss:// through Dialer.TLSClient: a reversible byte scrambler stands in for the secure layer (Dial paths only)
@@ -188,6 +189,7 @@ func drawHS(r *eng.Run) (hsClient, hsServer) {
 	}
 	c.RBuf = bufSizesHS[r.T.Int(sim.LSize, len(bufSizesHS))]
 	c.WBuf = bufSizesHS[r.T.Int(sim.LSize, len(bufSizesHS))]
+	c.StatusCb = r.T.Chance(sim.LCfg, 1, 3)
 	c.URL = []string{"ws://example.com/", "ws://example.com:8080/chat?x=1&y=2", "ws://[::1]:9000/p/a/t/h", "ws://h/" + strings.Repeat("seg/", 20)}[r.T.Int(sim.LCfg, 4)]
 	if r.T.Chance(sim.LEntry, 1, 3) {
 		c.Debug = 1 + r.T.Int(sim.LEntry, 4)
@@ -520,6 +522,9 @@ func (c hsClient) dialer() ws.Dialer {
 	}
 	if c.Header != "" {
 		d.Header = ws.HandshakeHeaderString(c.Header)
+	}
+	if c.StatusCb {
+		d.OnStatusError = func(status int, reason []byte, resp io.Reader) { io.Copy(io.Discard, resp) }
 	}
 	if c.TLS {
 		d.TLSClient = func(conn net.Conn, hostname string) net.Conn { return &xorConn{Conn: conn} }
